@@ -1,5 +1,10 @@
 _LIBS = ["terminal", "network", "event", "util", "base"]
 _DICT = "harness/C13/terminal.dict"
+# the driver's defaults + a hard RSS limit: a few hundred bytes from a client must not make the process grow without bound
+# (e.g. `tree` over a directory cycle that is not detected); ASan then aborts and the case is captured as a crash long before
+# the per-case watchdog (60 s) or the machine's memory is reached.  Normal peak RSS is < 150 MB (rapidcheck) / < 500 MB (fuzz).
+_ASAN = ("detect_leaks=1:detect_stack_use_after_return=0:allocator_may_return_null=1:handle_abort=0:symbolize=1:"
+         "malloc_context_size=4:quarantine_size_mb=48:hard_rss_limit_mb=")
 TARGETS = {
     "c13_hostile_fuzz":   {"src": "C13/hostile.cpp", "variant": "asan", "engine": "fuzz", "libs": _LIBS},
     "c13_hostile_rc":     {"src": "C13/hostile.cpp", "variant": "asan", "engine": "rc", "libs": _LIBS},
@@ -9,16 +14,16 @@ PROP = {
     "subchecks": [
         # (a) hostile bytes, token-level generator (rapidcheck).  Must stay the FIRST rapidcheck sub-check named `hostile`:
         # the text regression inputs `# hostile: ...` are replayed through it.
-        {"target": "c13_hostile_rc", "sub": "hostile",
+        {"target": "c13_hostile_rc", "sub": "hostile", "env": {"ASAN_OPTIONS": _ASAN + "4096"},
          "quick": {"cases": 10000, "max_size": 100, "workers": 4, "case_alarm": 60},
          "thorough": {"cases": 200000, "max_size": 100, "workers": 4, "case_alarm": 60}},
         # (b) line editor against the reference editor
-        {"target": "c13_line_editor_rc", "sub": "line_editor",
+        {"target": "c13_line_editor_rc", "sub": "line_editor", "env": {"ASAN_OPTIONS": _ASAN + "4096"},
          "quick": {"cases": 4000, "max_size": 100, "workers": 4, "case_alarm": 60},
          "thorough": {"cases": 80000, "max_size": 100, "workers": 4, "case_alarm": 60}},
         # (a) hostile bytes, libFuzzer (even workers start from corpus/C13/hostile, odd ones from an empty corpus).
         # A hang is part of the property: a timeout artifact is a violation (a unit takes ~1 ms; the limit is 60 s).
-        {"target": "c13_hostile_fuzz", "sub": "hostile", "dict": _DICT, "timeout_is_violation": True,
+        {"target": "c13_hostile_fuzz", "sub": "hostile", "dict": _DICT, "timeout_is_violation": True, "env": {"ASAN_OPTIONS": _ASAN + "2500"},
          "quick": {"runs": 25000, "max_len": 512, "workers": 8, "unit_timeout": 60},
          "thorough": {"runs": 250000, "max_len": 1024, "workers": 8, "unit_timeout": 60}},
     ],
